@@ -36,6 +36,8 @@ class Model:
         ev = Evaluator({n: m.node for n, m in ex.methods.items()}, max_depth=14)
         self.ev = ev
         ev.strict_sets = True
+        from .common import exception_bases
+        ev.exception_bases = exception_bases(src)
         ev.classes = {'Cell': {n: m.node for n, m in cell_ci.methods.items()}}
         hc = src.func('handle_cell')
         for m in (hc.module, ex.module, cell_ci.module):
